@@ -168,7 +168,7 @@ func c15CopySet(s map[string]c15Fields) map[string]c15Fields {
 	return o
 }
 
-const c15Wait = 20 * time.Second
+const c15Wait = 8 * time.Second
 
 // c15Groups returns the capture groups of a match (everything after the whole match), never nil.
 func c15Groups(m []string) []string {
